@@ -15,10 +15,16 @@ pub fn cases(rng: &mut Rng, tier: &str) -> (Vec<Case>, bool) {
         let text = compile(&prog);
         let expected = run(&prog, seed, 2000);
         let mut w = Walk::new(false, false);
-        w.op(&format!("seed {}", seed));
-        for l in &text {
-            w.start(l);
+        // one program in six arrives as a FILE (through the static analysis into the interpreter) instead of being typed
+        let as_file = i % 6 == 4;
+        if as_file {
+            w.op(&format!("load {}", crate::gen::hexs(&text.join("\n"))));
+        } else {
+            for l in &text {
+                w.start(l);
+            }
         }
+        w.op(&format!("seed {}", seed));
         let a = w.ops.len();
         w.start("RUN");
         let mut nr = 0;
@@ -30,7 +36,24 @@ pub fn cases(rng: &mut Rng, tier: &str) -> (Vec<Case>, bool) {
             Some((k, l)) => format!("{}@{}", k, l.map(|x| x.to_string()).unwrap_or("-".into())),
         };
         let prefix = expected.steps_exhausted || w.cut;
-        let checks = vec![format!("ref-outcome {}-{} {} {}{}", a, b, if expected.output.is_empty() { "-".to_string() } else { hex(&expected.output) }, err, if prefix { " prefix" } else { "" })];
+        let mut checks = vec![format!("ref-outcome {}-{} {} {}{}", a, b, if expected.output.is_empty() { "-".to_string() } else { hex(&expected.output) }, err, if prefix { " prefix" } else { "" })];
+        // RUN starts from nothing: the same program run AGAIN in the same interpreter (same generator state) does the same
+        if !prefix && (feats.contains(&"use-before-def") || feats.contains(&"array-fill") || feats.contains(&"read-collision") || i % 9 == 2) {
+            w.op(&format!("seed {}", seed));
+            let a2 = w.ops.len();
+            w.start("RUN");
+            let mut nr = 0;
+            w.drive(&[], &mut nr, 1500, false);
+            w.state();
+            let b2 = w.last();
+            if !w.cut {
+                checks.push(format!("ref-outcome {}-{} {} {}", a2, b2, if expected.output.is_empty() { "-".to_string() } else { hex(&expected.output) }, err));
+            }
+        }
+        let mut feats = feats;
+        if as_file {
+            feats.push("as-file");
+        }
         cases.push(Case { ops: w.ops, checks, tag: feats.join("+"), nontrivial: prog.len() > 2, show: text.join(" | ") });
     }
     (cases, false)
